@@ -71,23 +71,43 @@ template <class T, size_t N, size_t M> struct Cfg {
     return out;
   }
 
+  // every residue within a few bits of its maximum, independently: the accumulated sum Σ r_i·L_i is within a few percent of
+  // its maximum while the lifted value is spread over [0,Q) and the low limbs of the sum are arbitrary — the inputs on
+  // which an estimate that drops low limbs / has no headroom left in its shift is short by two
+  static std::vector<Pat> near_max(Rng& g, size_t count) {
+    std::vector<Pat> out;
+    for (size_t k = 0; k < count; k++) {
+      const unsigned b = 1 + (unsigned)g.below(sizeof(T) * 8 - 3);   // d_i < 2^b, b varies per pattern
+      Pat r(M);
+      for (size_t cm = 0; cm < M; cm++) { T p = P::get_modulus(cm); T d = (T)(g.next() & ((((uint64_t)1) << b) - 1)); r[cm] = (T)(p - 1 - (d % p)); }
+      out.push_back(r);
+    }
+    return out;
+  }
+
   // light run for sweeping the number of moduli: constants + lifts of the sensitive patterns only
   static void run_lite(Rng& g) {
     alignas(32) static P a;
-    head("crtinit"); printf(" =>");
-    pz(P::gmp.moduli_product);
-    printf(" %zu %zu", P::gmp.bits_in_moduli_product, P::gmp.shift_modulus_shoup);
-    pz(P::gmp.modulus_shoup);
-    printf(" %zu", P::gmp.bits_in_modulus_shoup);
-    for (size_t cm = 0; cm < M; cm++) pz(P::gmp.lifting_integers[cm]);
-    printf("\n");
+    // CRT_NOINIT: lifts only (the quick tier sweeps every number of moduli of the 64-bit table this way; the constants of
+    // those configurations are checked line by line in the thorough tier, where the driver's cost of re-deriving them is affordable)
+    static const bool noinit = env_u64("CRT_NOINIT", 0) != 0;
+    if (!noinit) {
+      head("crtinit"); printf(" =>");
+      pz(P::gmp.moduli_product);
+      printf(" %zu %zu", P::gmp.bits_in_moduli_product, P::gmp.shift_modulus_shoup);
+      pz(P::gmp.modulus_shoup);
+      printf(" %zu", P::gmp.bits_in_modulus_shoup);
+      for (size_t cm = 0; cm < M; cm++) pz(P::gmp.lifting_integers[cm]);
+      printf("\n");
+    }
     std::vector<Pat> pats = {cst(2), cst(1), rnd(g), mix(g)};
     for (auto& r : big_small(g, (M > 128 && !std::is_same<T, uint32_t>::value) ? 400 : thorough() ? 1500 : 800)) pats.push_back(r);
+    for (auto& r : near_max(g, noinit ? 160 : (M > 128 && !std::is_same<T, uint32_t>::value) ? 400 : thorough() ? 600 : 200)) pats.push_back(r);
     while (pats.size() % N) pats.push_back(rnd(g));
     // beyond the swept range of the Lean-checked lines (M > LITE_FULL) the harness filters: every lift is checked here
     // against the property's own statement with GMP (0 <= x < Q, x mod p_i = r_i) and only the first few lines per
     // configuration plus EVERY line that fails that test are passed on to the driver (which then reports them)
-    const bool filter = M > 128 && !std::is_same<T, uint32_t>::value;
+    const bool filter = noinit || (M > 128 && !std::is_same<T, uint32_t>::value);
     mpz_class Q(P::moduli_product());
     size_t emitted = 0;
     for (size_t off = 0; off < pats.size(); off += N) {
@@ -135,6 +155,7 @@ template <class T, size_t N, size_t M> struct Cfg {
     for (unsigned v : {2u, 3u, 1000u}) { Pat r(M); for (size_t cm = 0; cm < M; cm++) r[cm] = (T)(v % P::get_modulus(cm)); pats.push_back(r); }
     { Pat r(M); uint64_t z = g.next() >> 20; for (size_t cm = 0; cm < M; cm++) r[cm] = (T)(z % P::get_modulus(cm)); pats.push_back(r); }
     for (auto& r : big_small(g, thorough() ? 64 : 12)) pats.push_back(r);
+    for (auto& r : near_max(g, thorough() ? 64 : 12)) pats.push_back(r);
     for (size_t j : positions(g)) { pats.push_back(onehot(j, false)); pats.push_back(onehot(j, true)); pats.push_back(allmax_but(j)); }
     for (size_t k = 0; k < R; k++) pats.push_back(rnd(g));
     while (pats.size() % N) pats.push_back(rnd(g));
@@ -307,6 +328,11 @@ int main() {
   Rng g(env_u64("VERIF_SEED", 1));
 #ifdef CRT_SMALL   // sanitizer build of the quick tier: few instantiations
   cfg<uint16_t, 4, 2>(g); cfg<uint32_t, 4, 3>(g); cfg<uint64_t, 4, 2>(g); cfg<uint64_t, 2, 9>(g);
+  return 0;
+#endif
+#ifdef CRT_CHUNK   // quick tier: 8 separately compiled slices of "every number of 64-bit moduli 25..1000", lifts only (CRT_NOINIT=1)
+  { Rng gc(env_u64("VERIF_SEED", 1) * 8 + CRT_CHUNK);
+    lite_range<uint64_t, 24 + CRT_CHUNK * 122>(gc, std::make_index_sequence<122>{}); }
   return 0;
 #endif
 #ifdef CRT_ONLY_ALL64
